@@ -16,7 +16,8 @@ FAMILIES = {
     'c06_option_string': 'Option<String> absent / any 2-byte UTF-8 string under arbitrary minLength/maxLength',
     'c06_vec_string': 'Vec<String> with 1..2 items (2- and 1-byte UTF-8) under an arbitrary length facet',
     'c19_check_restrictions': 'probe tag, probe verdict, error byte, restriction set passed or None: all arbitrary',
-    'c19_serialize': 'probe tag / result / error byte arbitrary; Serializer never dereferenced (address identity only)',
+    'c19_check_restrictions_every_time': 'two calls on one wrapper (the second also through a clone): passing first, failing then; arbitrary tag',
+    'c19_serialize': 'probe tag / result / error byte arbitrary; Serializer uninitialised except its skip_start_end flag, which is arbitrary and must reach the value and survive the call',
     'c19_serialize_attributes': '0..2 attributes, probe result arbitrary; vector identity in and out',
     'c19_deserialize': 'probe result / tag / error byte arbitrary; Deserializer never dereferenced',
     'c19_default_clone_deref': 'arbitrary tag; Default, Clone (Arc identity, no value copy), Deref',
@@ -190,11 +191,11 @@ def c19(tier):
         functions=['helpers_content.rs multi_ref::MultiRef<T>: new, CheckRestrictions, YaSerialize::{serialize, serialize_attributes}, YaDeserialize::deserialize, Default, Clone, Deref'],
         assumptions=[
             'T = a probe type whose trait methods log (method, self tag, argument identity) and return arbitrary scripted results; forwarding for an arbitrary implementation implies the same XML / value / restriction result as the bare value',
-            'Serializer / Deserializer arguments are uninitialised memory that is never dereferenced (only their address is compared)',
+            'Serializer / Deserializer arguments are uninitialised memory that is never dereferenced (only their address is compared), except the serializer\'s skip_start_end flag (set and read through its accessors)',
             'Debug forwarding is not harnessed (needs a core::fmt::Formatter; fmt machinery is out of CBMC reach)',
             "yaserde's own derive output is outside the claim",
         ],
-        bounds_text='attribute vectors <= 2; error strings 1 byte; one call per harness')
+        bounds_text='attribute vectors <= 2; error strings 1 byte; one call per harness (two in c19_check_restrictions_every_time)')
 
 
 def c14_kw_part(rep, tier):
